@@ -151,6 +151,12 @@ def run(pid, tier, seed):
             jobs.append(("@+1d", "@-1d", tzs_, ("reject",), "reject:both-at"))
             jobs.append(("2024-01-02", "2024-01-01", tzs_, ("reject",), "reject:after>before"))
             jobs.append(("2024-01-01T00:00:01", "@-1s", tzs_, ("reject",), "reject:after>before"))
+            # after later than before by less than a second / a millisecond / one microsecond; equal bounds are a valid window
+            jobs.append(("2000-01-02T03:04:05.678901", "2000-01-02T03:04:05.678", tzs_, ("reject",), "reject:after>before"))
+            jobs.append(("2000-01-02T03:04:05.999", "2000-01-02T03:04:05", tzs_, ("reject",), "reject:after>before"))
+            jobs.append(("2000-01-02T03:04:05.000001", "2000-01-02T03:04:05.000000", tzs_, ("reject",), "reject:after>before"))
+            jobs.append(("2000-01-02T03:04:05.5+00:00", "2000-01-02T04:04:05.499+01:00", tzs_, ("reject",), "reject:after>before"))
+            jobs.append(("+946782245", "2000-01-02T03:04:04.999999+00:00", tzs_, ("reject",), "reject:after>before"))
 
         def do(job):
             a, b, tzs_, exp, cls = job
